@@ -36,15 +36,41 @@ var profiles = []profile{
 
 const threshold = 2
 
+// urlsX: a second URL list with a fourth id under h.com/u (letters 100, 101, ...: URL
+// urlsX[(l-100)%7], profile (l-100)/7), so that a tree rebuilt after a restart can converge a
+// second time on ids it has not seen before.
+var urlsX = []string{"h.com/u/1", "h.com/u/2", "h.com/u/3", "h.com/u/4", "h.com/u/5", "h.com/u/6", "h.com/u/7"}
+
+func split(letter int) (string, profile) {
+	if letter >= 100 {
+		return urlsX[(letter-100)%len(urlsX)], profiles[(letter-100)/len(urlsX)]
+	}
+	return urls[letter%len(urls)], profiles[letter/len(urls)]
+}
+
+// known is the set of known endpoints the URL tree is built from (at start and at a restart).
+var known sharedDiscovery.KnownEndpoints
+
+func knownName() string {
+	if len(known.Endpoints) == 0 {
+		return ""
+	}
+	var n []string
+	for _, e := range known.Endpoints {
+		n = append(n, e.URL)
+	}
+	return " known-endpoints=" + strings.Join(n, ",")
+}
+
 func record(letter, pos int) common.AccessLog {
-	u, p := urls[letter%len(urls)], profiles[letter/len(urls)]
+	u, p := split(letter)
 	return common.AccessLog{Timestamp: 1700000000000 + int64((pos*7)%5)*1000, Duration: p.Duration, TotalDuration: p.Total, StatusCode: p.Status,
 		Method: p.Method, Host: "h.com", URL: u, Interceptor: p.Interceptor, ConsumerTag: p.Consumer, RequestID: fmt.Sprintf("r%d", pos)}
 }
 
 func letterName(l int) string {
-	p := profiles[l/len(urls)]
-	return fmt.Sprintf("%s %s %d d=%d c=%q i=%q", p.Method, urls[l%len(urls)], p.Status, p.Duration, p.Consumer, p.Interceptor)
+	u, p := split(l)
+	return fmt.Sprintf("%s %s %d d=%d c=%q i=%q", p.Method, u, p.Status, p.Duration, p.Consumer, p.Interceptor)
 }
 
 type runResult struct {
@@ -62,7 +88,7 @@ func run(stream []common.AccessLog, cuts []bool, restartAfter int) runResult {
 	fileN++
 	path := filepath.Join(mc.WorkDir(), fmt.Sprintf("discovery-%d.json", fileN))
 	defer os.Remove(path)
-	tree, err := common.BuildTree(sharedDiscovery.KnownEndpoints{}, threshold)
+	tree, err := common.BuildTree(known, threshold)
 	if err != nil {
 		return runResult{err: err.Error()}
 	}
@@ -81,7 +107,7 @@ func run(stream []common.AccessLog, cuts []bool, restartAfter int) runResult {
 		}
 		start = i
 		if batchNo == restartAfter && i < len(stream) {
-			tree, _ = common.BuildTree(sharedDiscovery.KnownEndpoints{}, threshold)
+			tree, _ = common.BuildTree(known, threshold)
 			st = &discovery.State{DiscoverFilepath: path}
 			if err := st.InitializeState(); err != nil {
 				return runResult{err: "restart: " + err.Error()}
@@ -327,10 +353,26 @@ func canon(a discovery.Agg) string {
 }
 
 type replay struct {
-	Stream       []int  `json:"stream"`
+	Stream       []int    `json:"stream"`
 	Records      []string `json:"records"`
-	Cuts         []bool `json:"cuts"`
-	RestartAfter int    `json:"restart_after"`
+	Cuts         []bool   `json:"cuts"`
+	RestartAfter int      `json:"restart_after"`
+	Known        []string `json:"known_endpoints,omitempty"`
+}
+
+func knownURLs() []string {
+	var n []string
+	for _, e := range known.Endpoints {
+		n = append(n, e.URL)
+	}
+	return n
+}
+
+func setKnown(urls ...string) {
+	known = sharedDiscovery.KnownEndpoints{}
+	for _, u := range urls {
+		known.Endpoints = append(known.Endpoints, sharedDiscovery.Endpoint{Method: "GET", URL: u})
+	}
 }
 
 func evalStream(r *mc.Run, letters []int) {
@@ -345,7 +387,8 @@ func evalStream(r *mc.Run, letters []int) {
 	var first string
 	distinct := map[string]bool{}
 	for _, l := range letters {
-		distinct[urls[l%len(urls)]] = true
+		u, _ := split(l)
+		distinct[u] = true
 	}
 	for comp := 0; comp < ncomp; comp++ {
 		cuts := make([]bool, n-1)
@@ -371,7 +414,7 @@ func evalStream(r *mc.Run, letters []int) {
 			}
 		}
 		if fail != "" {
-			r.Violation(strings.SplitN(fail, " ", 2)[0], fmt.Sprintf("stream=%v batches cut after %v: %s", names, cuts, fail), replay{letters, names, cuts, -1})
+			r.Violation(strings.SplitN(fail, " ", 2)[0], fmt.Sprintf("stream=%v%s batches cut after %v: %s", names, knownName(), cuts, fail), replay{letters, names, cuts, -1, knownURLs()})
 			r.Outcome("violation")
 			continue
 		}
@@ -384,7 +427,7 @@ func evalStream(r *mc.Run, letters []int) {
 				f2 = conservation(stream, rr2, false)
 			}
 			if f2 != "" {
-				r.Violation("RESTART:"+strings.SplitN(f2, " ", 2)[0], fmt.Sprintf("stream=%v batches cut after %v restart after batch %d: %s", names, cuts, ra, f2), replay{letters, names, cuts, ra})
+				r.Violation("RESTART:"+strings.SplitN(f2, " ", 2)[0], fmt.Sprintf("stream=%v%s batches cut after %v restart after batch %d: %s", names, knownName(), cuts, ra, f2), replay{letters, names, cuts, ra, knownURLs()})
 			}
 		}
 	}
@@ -401,6 +444,7 @@ func TestCheck(t *testing.T) {
 		if err := mc.LoadReplay(f, &rp); err != nil {
 			t.Fatal(err)
 		}
+		setKnown(rp.Known...)
 		stream := make([]common.AccessLog, len(rp.Stream))
 		for i, l := range rp.Stream {
 			stream[i] = record(l, i)
@@ -416,7 +460,7 @@ func TestCheck(t *testing.T) {
 	}
 	nl := len(urls) * len(profiles)
 	fullLen := mc.Pick(r, 3, 4)
-	r.Rule = fmt.Sprintf("every access-log stream of length 1..%d over %d record letters (5 URLs, three of which converge under an inferred path parameter at threshold %d, x 4 method/status/duration/consumer/interceptor profiles), plus all streams one record longer over 10 letters and over the 4 path URLs x {GET, POST}, and two records longer (length %d) over the 4 path URLs; x every composition into consecutive batches x a restart (state re-read from disk, tree rebuilt) after any batch; non-trivial = stream with >=3 distinct URLs; distinct = stream", fullLen, nl, threshold, fullLen+2)
+	r.Rule = fmt.Sprintf("every access-log stream of length 1..%d over %d record letters (5 URLs, three of which converge under an inferred path parameter at threshold %d, x 4 method/status/duration/consumer/interceptor profiles), plus all streams one record longer over 10 letters and over the 4 path URLs x {GET, POST}, and two records longer (length %d) over the 4 path URLs, and over four ids under one path, and 6-7 records with pairwise different ids under one path; the latter families also with the tree built from known endpoints (a wildcard covering all traffic / a declared path parameter); x every composition into consecutive batches x a restart (state re-read from disk, tree rebuilt) after any batch; non-trivial = stream with >=3 distinct URLs; distinct = stream", fullLen, nl, threshold, fullLen+2)
 	r.Assume("records are attributed to endpoints with the run's own final URL tree (lookup only)", "after a restart only totals are compared (the rebuilt tree may attribute later records to raw URLs)",
 		"averages compared with the exact rational mean within 1e-4 relative")
 	if r.Parallel(t, 16) {
@@ -475,5 +519,60 @@ func TestCheck(t *testing.T) {
 		}
 		return true
 	})
+	// (4) four ids under one path (a tree rebuilt after a restart converges a second time on
+	// ids it has not seen), lengths up to fullLen+2, one profile; and one length less with
+	// two consumers
+	ext := func(l []int, profilesUsed int) []int {
+		m := make([]int, len(l))
+		for i, x := range l {
+			m[i] = 100 + x%4 + len(urlsX)*((x/4)%profilesUsed)
+		}
+		return m
+	}
+	mc.Sequences(4, fullLen+2, func(l []int) bool {
+		if len(l) >= fullLen+1 {
+			visit(ext(l, 1))
+		}
+		return true
+	})
+	mc.Sequences(8, fullLen+1, func(l []int) bool {
+		if len(l) == fullLen+1 {
+			visit(ext(l, 2))
+		}
+		return true
+	})
+	// (4b) six and seven records with pairwise different ids (what a tree rebuilt after a
+	// restart needs to converge a second time: threshold+1 ids before and after it), every
+	// assignment of two consumer/status profiles to the records
+	for n := 2*threshold + 2; n <= 2*threshold+3; n++ {
+		mc.Sequences(2, n, func(l []int) bool {
+			if len(l) == n {
+				m := make([]int, n)
+				for i, x := range l {
+					m[i] = 100 + i + len(urlsX)*x
+				}
+				visit(m)
+			}
+			return true
+		})
+	}
+	// (5) the same families with a tree built from known endpoints: a wildcard that covers
+	// all the traffic, and a declared path parameter
+	for _, kn := range [][]string{{"h.com/*"}, {"h.com/u/{id}"}} {
+		setKnown(kn...)
+		mc.Sequences(4, fullLen+2, func(l []int) bool {
+			if len(l) >= fullLen {
+				visit(ext(l, 1))
+			}
+			return true
+		})
+		mc.Sequences(2*len(urls), fullLen, func(l []int) bool {
+			if len(l) > 0 {
+				visit(l)
+			}
+			return true
+		})
+	}
+	setKnown()
 	r.Finish(t)
 }
